@@ -58,6 +58,10 @@ func c15Menu() []c15Rec {
 		// a complement-strand region enclosing several disjoint forward regions (sorting/merging of mixed orientations)
 		{c15Feature("f1", "gene", gts.Complemented{Location: gts.Range(1, 11)}), c15Feature("f2", "gene", gts.Range(2, 4)), c15Feature("f3", "gene", gts.Range(5, 7)), c15Feature("f4", "gene", gts.Range(8, 10))},
 	}
+	// a three- and a four-part spliced region with features inside its later parts (feature offsets after splicing)
+	tables = append(tables,
+		[]gts.Feature{c15Feature("f1", "gene", gts.Joined{gts.Range(0, 2), gts.Range(3, 6), gts.Range(7, 12)}), c15Feature("f2", "CDS", gts.Range(4, 5)), c15Feature("f3", "CDS", gts.Range(8, 11)), c15Feature("f4", "CDS", gts.Range(0, 1))},
+		[]gts.Feature{c15Feature("f1", "gene", gts.Complemented{Location: gts.Joined{gts.Range(0, 2), gts.Range(3, 5), gts.Range(6, 8), gts.Range(9, 12)}}), c15Feature("f2", "CDS", gts.Range(3, 4)), c15Feature("f3", "CDS", gts.Range(7, 8)), c15Feature("f4", "CDS", gts.Range(10, 12))})
 	var out []c15Rec
 	for ti, t := range tables {
 		for _, circ := range []bool{false, true} {
@@ -294,7 +298,12 @@ func c15Eval(c c15Case) (ok bool, sig, detail string) {
 		var rr []gts.Region
 		in := true
 		seq := gts.Sequence(menu[i].genbank())
-		for _, loc := range locators {
+		for li := range locators {
+			// a locator built afresh for every record: what is located in record k must not depend on the records before it
+			loc, err := gts.AsLocator(c.Locs[li])
+			if err != nil {
+				loc = locators[li]
+			}
 			for _, r := range loc(seq) {
 				rr = append(rr, r)
 				for _, s := range flatSegs(r) {
